@@ -117,6 +117,17 @@ class Canon(ast.NodeTransformer):
     def visit_Name(self, node):
         if node.id in self.unify:
             return ast.copy_location(ast.Name(id=self.unify[node.id], ctx=node.ctx), node)
+        # temporaries introduced by the helper inliner (inline.py): `_res__<helper>`, `<name>__<helper>` -- the two sides' copies differ only in these
+        if '__' in node.id.strip('_'):
+            base = node.id
+            while '__' in base.strip('_'):
+                head, _, tail = base.rpartition('__')
+                if not head.strip('_'):
+                    break
+                base = head
+            if base.startswith(('_res', '_ret')):
+                base = '_tmp'
+            return ast.copy_location(ast.Name(id=base, ctx=node.ctx), node)
         return node
 
     def visit_Call(self, node):
